@@ -157,6 +157,8 @@ func (P *Program) verifyFunc(fn *ssa.Function, fc *FuncContract, mode Mode) *Fun
 	for _, r := range fr.returns {
 		fr.curReach = r.reach
 		fr.curSt = r.st
+		fr.cur = r.block
+		fr.curInstr = -1
 		suffix := ""
 		if nret > 1 {
 			suffix = fmt.Sprintf("@ret%d", r.ord)
@@ -339,6 +341,24 @@ func (c *Ctx) splitUsing(env *SpecEnv, items []string) (names []string, extra []
 			continue
 		}
 		id, _ := call.Fun.(*EIdent)
+		if id != nil && id.Name == "mention" {
+			// seed the solver's term database with a term (instantiation hint only)
+			for _, a := range call.Args {
+				nerr := len(c.errs)
+				v := env.tr(a)
+				if len(c.errs) > nerr {
+					// names of the hint are not in scope at this site: the hint does not apply
+					c.errs = c.errs[:nerr]
+					continue
+				}
+				if v.Ty == nil {
+					continue
+				}
+				n := c.fresh("mention")
+				extra = append(extra, fmt.Sprintf("(declare-fun %s () %s)", n, c.sortOf(v.Ty)), fmt.Sprintf("(assert (= %s %s))", n, v.T))
+			}
+			continue
+		}
 		var lm *Lemma
 		if id != nil {
 			for k, l := range c.prog.Contracts.Lemmas {
